@@ -200,3 +200,10 @@ func (c *memConn) RemoteAddr() net.Addr               { return &net.TCPAddr{IP: 
 func (c *memConn) SetDeadline(t time.Time) error      { return nil }
 func (c *memConn) SetReadDeadline(t time.Time) error  { return nil }
 func (c *memConn) SetWriteDeadline(t time.Time) error { return nil }
+
+// dup copies b into a slice whose capacity equals its length.
+func dup(b []byte) []byte {
+	o := make([]byte, len(b))
+	copy(o, b)
+	return o
+}
